@@ -102,6 +102,28 @@ def lemmas(exprs, max_pairs=400):
             facts.append(z3.Implies(z3.And(u >= -1, u <= 1), a == u))
         if f in ("log", "log2", "log10") and _eq(t, z3.RealVal(1)):
             facts.append(a == 0)
+    # inverse pairs through arithmetic: f(t) with t = +-g-application (e.g. tanh(-(-2*arctanh(u))/2))
+    INV = {"tanh": "arctanh", "arctanh": "tanh", "sin": "arcsin", "arcsin": "sin"}
+    for a in apps:
+        f = a.decl().name()
+        g = INV.get(f)
+        if g is None:
+            continue
+        t = a.arg(0)
+        for b in by.get(g, []):
+            u = b.arg(0)
+            for sign in (1, -1):
+                if _eq(t, b if sign == 1 else -b):
+                    concl = a == (u if sign == 1 else -u)       # all four functions are odd
+                    if f == "tanh":
+                        facts.append(z3.Implies(z3.And(u > -1, u < 1), concl))
+                    elif f == "arctanh":
+                        facts.append(concl)
+                    elif f == "sin":
+                        facts.append(z3.Implies(z3.And(u >= -1, u <= 1), concl))
+                    else:
+                        facts.append(z3.Implies(z3.And(u >= -half_pi, u <= half_pi), concl))
+                    break
     # odd / even functions applied to a negated argument are handled through pairs
     npairs = 0
     for f, lst in by.items():
